@@ -21,6 +21,11 @@ where
     W: io::Write,
 {
     let header = header::StreamHeader::parse(input)?;
+    if header.stream_flags.check_method == CheckMethod::Sha256 {
+        return Err(error::Error::XzError(
+            "Unsupported SHA-256 checksum (not yet implemented)".to_string(),
+        ));
+    }
 
     let mut records: Vec<Record> = vec![];
     let index_size = loop {
